@@ -189,7 +189,7 @@ fn call_point() {
 /// Runs one primitive API call with call/ret logging; a panic in the crate is a result
 fn prim<F: FnOnce() -> Res>(op: &str, api: &str, h: &str, hk: &str, v: i64, newh: &str, f: F) -> Res {
     log_call(op, api, h, hk, v, newh);
-    let r = catch_unwind(AssertUnwindSafe(f));
+    let r = catch_unwind(AssertUnwindSafe(|| crate::heap::in_crate(f)));
     match r {
         Ok(res) => {
             let (s, v, same) = res.to_json();
@@ -541,6 +541,7 @@ fn exec_op(op: &Value, fut_default: bool) -> bool {
 static LAYOUT: Mutex<Vec<(usize, String)>> = Mutex::new(Vec::new());
 
 fn register_layout(hname: &str, h: &H) {
+    let _hg = crate::heap::harness();
     let mut l = LAYOUT.lock().unwrap_or_else(|p| p.into_inner());
     {
         let mut st = rt().lock();
@@ -636,10 +637,11 @@ pub fn run_opt(
     let mut outcome = Outcome::Done;
     let mut source = Some(source);
     rt::enter(None);
+    crate::heap::reset();
     let allocs_before = r.lock().allocs.len();
     api_all.push(json!({"e":"reset","scn":scn.name,"fl":scn.flavour,"fut":scn.fut,"cap":scn.cap,"wait":scn.wait}));
     {
-        let (tx, rx) = handles::create(&scn.flavour, scn.fut, scn.cap, &scn.wait, scn.spins);
+        let (tx, rx) = crate::heap::in_crate(|| handles::create(&scn.flavour, scn.fut, scn.cap, &scn.wait, scn.spins));
         register_layout("tx", &tx);
         register_layout("rx", &rx);
         tbl_put("tx", tx);
@@ -729,11 +731,13 @@ pub fn run_opt(
         api_all.append(&mut tail);
         let live = st.allocs.len() as i64 - allocs_before as i64;
         let live_bytes: usize = st.allocs.values().map(|a| a.0).sum();
+        let (crate_heap, crate_blocks) = crate::heap::crate_live();
         if outcome != Outcome::Done {
             // forget what the leaked queue still holds
             st.allocs.clear();
         }
         api_all.push(json!({"e":"end","left":nleft,"live":live,"live_bytes":live_bytes,
+                            "crate_heap":crate_heap,"crate_blocks":crate_blocks,
                             "outcome":format!("{:?}", outcome)}));
     }
     rt::leave();
